@@ -6,7 +6,7 @@
    params_ok p  =  pow2 avg && min <= avg && avg <= max        (check_rabin_params)
                    && PREFILL_SLICE <= min && BUF_SIZE - 1 <= min   (forced by the proof). *)
 From Verif.Base Require Import Tactics.
-From Verif.C06 Require Import Extracted Model Spec ListLemmas Proofs Proofs2 Proofs3 Proofs4 Proofs5.
+From Verif.C06 Require Import Extracted Model Spec ListLemmas Proofs Proofs2 Proofs3 Proofs4 Gf2 Proofs5 Gf2Tables Proofs6.
 Local Open Scope N_scope.
 
 (* For EVERY read schedule (1-byte reads, short reads, Interrupted, any mixture), every size
@@ -106,13 +106,42 @@ Theorem fixed_size_zero_refuted :
 Proof. exact fixed_size_zero_refuted_lemma. Qed.
 Print Assumptions fixed_size_zero_refuted.
 
-(* rolling_equals_recompute, PARTIAL (full statement and the gap: Proofs5.v, NOTES.md): if the
-   mod table appends a byte to a reduced value correctly and the out table removes the oldest
-   window byte correctly (single steps), then the hash of EVERY window the chunker has is the
-   direct reduction modulo P of the window bytes read as a polynomial over GF(2). *)
+(* rolling_equals_recompute: for EVERY polynomial of degree 8..56 (random_poly yields 53), every
+   window size 2^bits, every prefill and every sequence of bytes slid in, the table-driven
+   rolling hash equals the direct reduction modulo P of the window bytes read as a polynomial
+   over GF(2) (most significant byte first). *)
+Theorem rolling_equals_recompute : forall P bits, 8 <= N.log2 P -> N.log2 P <= 56 ->
+  forall bs xs, Forall isbyte bs -> Forall isbyte xs ->
+    length bs = (N.to_nat (t_wsize (rabin_tab bits P)) - 1)%nat ->
+    let w := fold_left (a_slide (rabin_tab bits P)) xs (a_init (rabin_tab bits P) bs) in
+    a_hash w = fp_direct P (a_fifo w).
+Proof. exact rolling_lemma. Qed.
+Print Assumptions rolling_equals_recompute.
+
+(* the two single-step facts lifted to all windows (kept: it isolates what the tables must do) *)
 Theorem rolling_equals_recompute_partial : forall T P,
   step_append_ok T P -> step_out_ok T P -> 0 < t_wsize T ->
   forall bs xs, Forall isbyte bs -> Forall isbyte xs -> length bs = (N.to_nat (t_wsize T) - 1)%nat ->
     let w := fold_left (a_slide T) xs (a_init T bs) in a_hash w = fp_direct P (a_fifo w).
 Proof. exact rolling_partial_lemma. Qed.
 Print Assumptions rolling_equals_recompute_partial.
+
+(* the value tested against the split mask at length L (is_cut, first_cut_is_least) IS the Rabin
+   fingerprint, under the repository polynomial, of the chunker's window at L *)
+Theorem window_hash_is_fingerprint : forall p s L, Forall isbyte s ->
+  8 <= N.log2 (c_poly p) -> N.log2 (c_poly p) <= 56 ->
+  PREFILL_SLICE <= c_min p -> c_min p <= nlen s ->
+  a_hash (win_at (tab_of p) p s L) = fp_direct (c_poly p) (a_fifo (win_at (tab_of p) p s L)).
+Proof. exact window_hash_is_fingerprint_lemma. Qed.
+Print Assumptions window_hash_is_fingerprint.
+
+(* cut_local: from length min + 64 on, the window is exactly the most recent 64 bytes, so whether
+   L is a cut is a function of (L >= max, L = |s|, s[L-64 .. L)) only.  (For min <= L < min + 64
+   the window is 0 :: s[min-64 .. min-1) ++ s[min .. L), last 64 - see Spec.win_at.) *)
+Theorem cut_local : forall p s L, Forall isbyte s ->
+  8 <= N.log2 (c_poly p) -> N.log2 (c_poly p) <= 56 ->
+  PREFILL_SLICE <= c_min p -> c_min p + 64 <= L -> L <= nlen s ->
+  a_fifo (win_at (tab_of p) p s L) = ntake 64 (ndrop (L - 64) s) /\
+  a_hash (win_at (tab_of p) p s L) = fp_direct (c_poly p) (ntake 64 (ndrop (L - 64) s)).
+Proof. exact cut_local_lemma. Qed.
+Print Assumptions cut_local.
